@@ -477,6 +477,21 @@ def private_helper_resolver(idx: Index):
 
 def run_property(pid: str, fn, tier: str) -> int:
     t0 = time.time()
+    chk = None
+
+    def undecided(msg):
+        """an obligation refuted before the analysis gave up is a violation all the same: report it (exit 1); only when nothing
+        new was refuted is the run 'cannot decide' (exit 2)"""
+        if chk is not None:
+            known = load_known()
+            new = [o for o in chk.obs if not o.ok and match_known(pid, o, known) is None]
+            if new:
+                print(f"ANALYSIS-INCOMPLETE property={pid}: {msg.splitlines()[0]} (the obligations below were refuted before that)")
+                chk.notes.append(f"analysis incomplete: {msg.splitlines()[0]}")
+                return finish(chk, t0)
+        print(f"ANALYSIS-ERROR property={pid}: {msg}")
+        return 2
+
     try:
         idx = Index(REPO)
         chk = Check(pid, idx, tier)
@@ -487,9 +502,7 @@ def run_property(pid: str, fn, tier: str) -> int:
             raise AnalysisError("no obligations were generated (vacuous run)")
         return finish(chk, t0)
     except AnalysisError as e:
-        print(f"ANALYSIS-ERROR property={pid}: {e}")
-        return 2
+        return undecided(str(e))
     except Exception:  # internal error: cannot decide
         tb = traceback.format_exc()
-        print(f"ANALYSIS-ERROR property={pid}: internal exception\n{tb}")
-        return 2
+        return undecided(f"internal exception\n{tb}")
